@@ -348,6 +348,13 @@ struct Exec {
     f8_chain_cands: BTreeSet<u64>,
     /// some committed segment had delete_opstamp != commit opstamp when the first delete was issued
     f8_other_source: bool,
+    /// the first delete of the re-created writer, and the committed segments at the reopen check
+    /// point: (segment id, delete_opstamp, alive ids)
+    first_del_q: Option<Q>,
+    last_segments: Vec<(String, Option<u64>, Vec<u64>)>,
+    /// what the Lean model of merge()/end_merge (with delete_opstamp) says a fresh searcher shows
+    /// after the one explicit merge of all committed segments that followed that delete
+    merge_prediction: Option<Vec<u64>>,
     explicit_merges_since_first_del: u32,
     /// delete_opstamp of the segment of every published document at the last check point
     last_seg_delop: BTreeMap<u64, Option<u64>>,
@@ -434,6 +441,9 @@ impl Exec {
             f8_lost_cands: BTreeSet::new(),
             f8_chain_cands: BTreeSet::new(),
             f8_other_source: false,
+            first_del_q: None,
+            last_segments: vec![],
+            merge_prediction: None,
             explicit_merges_since_first_del: 0,
             last_seg_delop: BTreeMap::new(),
             f10_cands: BTreeSet::new(),
@@ -553,6 +563,7 @@ impl Exec {
         self.had_delete = true;
         if op == self.session_start && self.was_fresh {
             self.first_del = true;
+            self.first_del_q = Some(q.clone());
             self.explicit_merges_since_first_del = 0;
             // what the model of merge() / end_merge predicts for the unchanged code: a source whose
             // delete_opstamp equals the commit opstamp C is skipped by advance_deletes(target = C),
@@ -726,8 +737,31 @@ impl Exec {
                     self.merge_possible = true;
                     self.explicit_merges_since_first_del += 1;
                     ctx.report.count("op:merge-started");
+                    // model correspondence for the corner next to F8: first delete of a re-created
+                    // writer, then ONE explicit merge of ALL committed segments, no merge policy
+                    let predictable = self.first_del && self.explicit_merges_since_first_del == 1 && self.cfg.policy == 0
+                        && self.policy_intact && chosen.len() == ids.len() && self.toks.last().map_or(false, |(t, _)| matches!(t, Tok::Del(_) | Tok::Batch(_)))
+                        && self.session_dels.len() == 1;
                     let fut = self.writer.as_mut().unwrap().merge(&chosen);
-                    match fut.wait() {
+                    let merged = fut.wait();
+                    if predictable && merged.is_ok() {
+                        if let Some(q) = self.first_del_q.clone() {
+                            let mut segs: Vec<&(String, Option<u64>, Vec<u64>)> = vec![];
+                            for sid in &chosen {
+                                if let Some(s) = self.last_segments.iter().find(|s| s.0 == sid.uuid_string()) {
+                                    segs.push(s);
+                                }
+                            }
+                            if segs.len() == chosen.len() {
+                                let victims: Vec<u64> = self.committed.iter().cloned().filter(|i| q_matches(&q, *i)).collect();
+                                let segtxt: Vec<String> = segs.iter().map(|s| format!("{}:{}", s.1.map_or("-".to_string(), |d| d.to_string()), crate::model::nat_list(&s.2))).collect();
+                                let resp = ask(ctx, &format!("C02 mergecorner {} {} {}", self.session_start, crate::model::nat_list(&victims), segtxt.join(";")));
+                                ctx.report.count("merge-corner:model-asked");
+                                self.merge_prediction = field(&resp, "pub").and_then(|s| crate::model::parse_nat_list(&s));
+                            }
+                        }
+                    }
+                    match merged {
                         Ok(_) => ctx.report.count("op:merge-ok"),
                         Err(_) => ctx.report.count("op:merge-refused"),
                     }
@@ -879,12 +913,14 @@ impl Exec {
     fn after_commit(&mut self, ctx: &mut Ctx, o: u64, prepared: Option<u64>, payload: Option<u64>, case: &Case, out: &mut Vec<Finding>) {
         // larger than every operation it includes
         self.stamp(o, "commit", out);
+        let prev_payload: Option<Option<u64>> = self.last_payload;
         if let Some(po) = prepared {
             if po != o {
                 out.push(Finding { kind: "oracle", key: "C02:commit-opstamp-mismatch".into(), what: format!("PreparedCommit::opstamp() = {po} but commit() returned {o}") });
             }
         }
         self.committed = self.pending.clone();
+        self.merge_prediction = None;
         self.tx_added.clear();
         self.tx_max_add_op = None;
         self.last_commit = Some(o);
@@ -897,7 +933,15 @@ impl Exec {
                 }
                 let want = payload.map(|p| format!("payload-{p}"));
                 if m.payload != want {
-                    out.push(Finding { kind: "oracle", key: "C02:payload-mismatch".into(), what: format!("payload {:?} published, {:?} expected", m.payload, want) });
+                    // residue of F9: an end_merge task of the PREVIOUS writer saved meta.json with the
+                    // payload (and opstamp) it had loaded, after this commit
+                    let stale = prev_payload.map(|pp| pp.map(|x| format!("payload-{x}")));
+                    if self.replaced_busy_writer && stale == Some(m.payload.clone()) {
+                        self.poisoned = true;
+                        out.push(Finding { kind: "oracle", key: K_F9.into(), what: format!("meta.json carries the payload {:?} of the previous commit instead of {:?}: an end_merge task of the previous writer saved its own meta.json after this writer's commit (the writer was re-created while merges could be in flight)", m.payload, want) });
+                    } else {
+                        out.push(Finding { kind: "oracle", key: "C02:payload-mismatch".into(), what: format!("payload {:?} published, {:?} expected", m.payload, want) });
+                    }
                 }
             }
             Err(e) => out.push(Finding { kind: "oracle", key: "C02:meta-unreadable".into(), what: format!("load_metas after commit: {e}") }),
@@ -954,6 +998,7 @@ impl Exec {
         let mut field_errors = vec![];
         let mut seg_of: BTreeMap<u64, usize> = BTreeMap::new();
         let mut delops: BTreeMap<u64, Option<u64>> = BTreeMap::new();
+        let mut segments: Vec<(String, Option<u64>, Vec<u64>)> = vec![];
         self.nsegs_max = self.nsegs_max.max(searcher.segment_readers().len());
         let mut total = 0u64;
         for (ord, sr) in searcher.segment_readers().iter().enumerate() {
@@ -963,6 +1008,7 @@ impl Exec {
                 eprintln!("DIAG checkpoint {} segment {} ord {} docs(doc,id,alive) {:?}", self.checkpoints, sr.segment_id().uuid_string(), ord, all);
             }
             let gcol = sr.fast_fields().u64("grp").map_err(|e| e.to_string())?;
+            segments.push((sr.segment_id().uuid_string(), sr.delete_opstamp(), sr.doc_ids_alive().filter_map(|d| col.first(d)).collect()));
             total += sr.num_docs() as u64;
             for doc in sr.doc_ids_alive() {
                 let fid = col.first(doc);
@@ -1021,6 +1067,7 @@ impl Exec {
         fast.sort();
         by_term.sort();
         self.last_seg_delop = delops;
+        self.last_segments = segments;
         Ok((stored, fast, by_term, field_errors, seg_of))
     }
 
@@ -1054,6 +1101,14 @@ self.storage_error("C02:searcher-unreadable", format!("after {how}: {e}"), out);
                 }
             }
             self.tx_batches.clear();
+        }
+        if how != "commit" {
+            if let Some(pred) = self.merge_prediction.take() {
+                ctx.report.count("merge-corner:compared");
+                if pred != stored {
+                    out.push(Finding { kind: "model", key: "C02:merge-corner-model-mismatch".into(), what: format!("after {how}: one merge of all committed segments after the first delete of a re-created writer: a fresh searcher shows {}, the Lean model of merge()/end_merge predicts {}", short(&stored), short(&pred)) });
+                }
+            }
         }
         let mut expected = self.committed.clone();
         expected.sort();
@@ -2130,7 +2185,7 @@ pub fn run(ctx: &mut Ctx) {
     // producer threads racing between stamp and send (F10), free-running (thorough tier only:
     // the forced schedules above give the deterministic witness)
     if ctx.thorough() {
-        producer_race(ctx, 2000);
+        producer_race(ctx, 1200);
     }
     // re-created writer, first operation a delete, one merge of committed segments
     for k in 0..ctx.budget(12, 200) {
@@ -2141,7 +2196,7 @@ pub fn run(ctx: &mut Ctx) {
         report_findings(ctx, &case, f);
     }
     // real memory-budget cuts in the middle of run() batches
-    let memcut = ctx.budget(7, 70);
+    let memcut = ctx.budget(7, 49);
     for k in 0..memcut {
         let mut rng = ctx.rng.fork();
         let case = gen_memcut_case(&mut rng, k);
@@ -2151,7 +2206,7 @@ pub fn run(ctx: &mut Ctx) {
         ctx.report.count(if after > before { "memcut:one-segment" } else { "memcut:several-segments" });
         report_findings(ctx, &case, f);
     }
-    let histories = ctx.budget(170, 3500);
+    let histories = ctx.budget(170, 2600);
     for k in 0..histories {
         let mut rng = ctx.rng.fork();
         let profile = match k % 10 { 0..=4 => 0, 5 | 6 => 1, 7 | 8 => 2, _ => 3 };
